@@ -26,9 +26,15 @@ def first_index(s):
     return int(m.group(1)) if m else None
 
 def standard(ctx, props, harness=None, obl=None, cases=None, trusted=(), assumptions=(), unproved=None,
-             pkg="cmd/keymasterd", race=False, checker=None, timeout=1500, env=None, extra_gen=(), extra_overlay=None):
+             pkg="cmd/keymasterd", race=False, checker=None, timeout=1500, env=None, extra_gen=(), extra_overlay=None,
+             model_oracles=()):
     """props: list of (module, [theorems]); harness: (test name, [files]); obl: (file, [names]);
-       cases: (file, [(definition name, label)], idx file or None)"""
+       cases: (file, [(definition name, label)], idx file or None);
+       model_oracles: [(definition name, oracle key, what, idx file)] - lists printed by the case file that hold
+       the indices of the mismatching cases on which the OBSERVATION violates the property's own predicate
+       (the conclusion of the soundness theorem evaluated on the observed output): each index becomes an
+       oracle hit, so that the VIOLATION line carries the failing input.  The key may be a function of the
+       case's idx line (it must return a stable shape name)"""
     for mod, thms in props:
         ctx.audit(mod, thms)
     gen = ctx.extract()
@@ -61,6 +67,18 @@ def standard(ctx, props, harness=None, obl=None, cases=None, trusted=(), assumpt
                         if i < len(lines):
                             first = lines[i]
                     ctx.broken.append(("correspondence", name, {"label": label, "first_mismatch": first, "indices": (mism or "")[:400]}))
+            for name, key, what, idxf in model_oracles:
+                viol = res.get(name)
+                if viol is None or viol == "[]":
+                    continue
+                lines = []
+                if idxf and os.path.exists(os.path.join(ctx.work, idxf)):
+                    lines = open(os.path.join(ctx.work, idxf)).read().split("\n")
+                for m in re.findall(r"\d+", viol.split(":")[0])[:20]:
+                    i = int(m)
+                    line = lines[i] if i < len(lines) else "case %d" % i
+                    ctx.hits.append({"key": key(line) if callable(key) else key, "oracle": "model-oracle: " + name, "what": what,
+                                     "case": line})
     ctx.assumptions = list(assumptions)
     return ctx.finish(checker or ("bin/build-coq; coqc Audit_*/Obl_*/Cases* (lib/core.py); go test -overlay " + (harness[0] if harness else "")),
                       COMMON_TRUSTED + list(trusted), unproved)
